@@ -22,6 +22,7 @@ import (
 	"sort"
 	"strings"
 	"sync"
+	"sync/atomic"
 	"time"
 
 	"verifharness/vh"
@@ -35,11 +36,13 @@ type Op struct {
 	ID int    `json:"id,omitempty"`
 	V  int64  `json:"v,omitempty"` // encoded full record (two bits per SessionState field, struct order)
 	N  int    `json:"n,omitempty"` // repeat count (bursts); 0 = once
+	G  bool   `json:"g,omitempty"` // e2e reconnect: the new stream handler is held right after its first flush while change (ID, V) is pushed and broadcast
 	F  int    `json:"f,omitempty"` // syncfail / cutsync: fault kind (0 refused with 503, 1 body cut half way, 2 undecodable body)
 }
 type Case struct {
 	Ops []Op `json:"ops"`
 	E2E bool `json:"e2e,omitempty"` // end-to-end schedule (ops: put del disc reconnect), real standbyLoop
+	Size int `json:"size,omitempty"` // size class of value B of the long string fields: 0 short, 1 > 4 KB, 2 > 64 KB
 	HB  bool `json:"hb,omitempty"`  // e2e: the active's heartbeat ticker fires every 3 ms (default 10 s: never within a case)
 }
 
@@ -92,15 +95,64 @@ func (w *sseWriter) Flush() {
 	}
 }
 
+// one stream connection of the standby as the active sees it: the real handleSessionStream running
+// in a goroutine on a driver-owned writer
+type conn struct {
+	w         *sseWriter
+	cancel    context.CancelFunc
+	done      chan struct{}
+	inHand    []byte // bytes of the event the stream handler is blocked on (nil = handler idle)
+	chanCount int    // messages queued in the client channel behind it
+	stuck     bool   // a bounded wait on this handler has expired
+}
+
+const stepWait = 3 * time.Second // every wait of the driver on the implementation is bounded
+
+// take waits (bounded) for the handler to hand over the next event; a handler that let one wait
+// expire is not waited for again (a lost change costs one bound per connection, not one per step)
+func (c *conn) take() []byte {
+	if c.stuck {
+		select {
+		case b := <-c.w.pending:
+			return b
+		default:
+			return nil
+		}
+	}
+	select {
+	case b := <-c.w.pending:
+		return b
+	case <-time.After(stepWait):
+		c.stuck = true
+		return nil
+	}
+}
+func (c *conn) letGo() {
+	d := stepWait
+	if c.stuck {
+		d = 10 * time.Millisecond
+	}
+	select {
+	case c.w.release <- struct{}{}:
+	case <-time.After(d):
+		c.stuck = true
+	}
+}
+func (c *conn) end() {
+	c.cancel()
+	select {
+	case <-c.done:
+	case <-time.After(stepWait):
+	}
+}
+
 type world struct {
 	aStore, sStore *ha.InMemorySessionStore
 	active, stand  *ha.HASyncer
-	link           string // down synced streaming
-	w              *sseWriter
-	cancel         context.CancelFunc
-	done           chan struct{}
-	inHand         []byte // bytes of the event the stream handler is blocked on (nil = handler idle)
-	chanCount      int    // messages queued in the client channel behind it
+	link           string  // down synced streaming
+	cur            *conn   // the standby's current stream
+	zombies        []*conn // streams the standby has lost, handler still attached on the active
+	nconn          int
 }
 
 func sid(id int) string { return fmt.Sprintf("sess-%d", id) }
@@ -164,15 +216,18 @@ func newWorld() *world {
 }
 
 func (w *world) close() {
-	if w.link == "streaming" {
-		w.disconnect()
+	if w.cur != nil {
+		w.cur.end()
 	}
+	for _, z := range w.zombies {
+		z.end()
+	}
+	w.cur, w.zombies = nil, nil
 }
 
 func (w *world) disconnect() {
-	w.cancel()
-	<-w.done
-	w.w, w.inHand, w.chanCount = nil, nil, 0
+	w.cur.end()
+	w.cur = nil
 }
 
 // ---- the whole SessionState record as the session value ----
@@ -184,6 +239,8 @@ func (w *world) disconnect() {
 // `layout` stream.
 var sessType = reflect.TypeOf(ha.SessionState{})
 
+var sizeClass int // of the case in progress
+
 func fieldChoice(i int, f reflect.StructField, d int) (reflect.Value, bool) {
 	v := reflect.New(f.Type).Elem()
 	if d == 0 {
@@ -193,7 +250,14 @@ func fieldChoice(i int, f reflect.StructField, d int) (reflect.Value, bool) {
 	case f.Type == reflect.TypeOf(time.Time{}):
 		v.Set(reflect.ValueOf(time.Unix(int64(1700000000+1000*d+i), 0).UTC()))
 	case f.Type.Kind() == reflect.String:
-		v.SetString(fmt.Sprintf("%s-%c", strings.ToLower(f.Name), 'A'+byte(d-1)))
+		str := fmt.Sprintf("%s-%c", strings.ToLower(f.Name), 'A'+byte(d-1))
+		if d == 2 && sizeClass > 0 && (f.Name == "Username" || f.Name == "QoSProfile") {
+			// value B of the long string fields: > 4 KB (a bufio buffer) / > 64 KB (a Scanner token);
+			// "<&>" is escaped sixfold by encoding/json
+			n := map[int]int{1: 5000, 2: 70000}[sizeClass]
+			str += "<&>" + strings.Repeat("x", n)
+		}
+		v.SetString(str)
 	case f.Type.Kind() == reflect.Bool:
 		v.SetBool(true)
 	case f.Type.Kind() >= reflect.Int && f.Type.Kind() <= reflect.Int64:
@@ -388,16 +452,31 @@ func (w *world) apply(o Op) (op string, res string) {
 			op = "Heartbeat"
 			w.active.VerifBroadcastHeartbeat()
 		}
+		// zombies are broadcast to as well: an idle zombie handler takes the message and blocks for ever
+		dz := 0
+		for _, z := range w.zombies {
+			switch {
+			case z.inHand == nil:
+				z.inHand = z.take()
+			case z.chanCount < ccap-1:
+				z.chanCount++
+				dz++
+			}
+		}
 		switch {
 		case w.link != "streaming":
 			res = fmt.Sprintf("RBcast %s BNoClient", ms)
-		case w.inHand == nil: // handler idle: it takes the message and blocks in Flush
-			w.inHand = <-w.w.pending
-			res = fmt.Sprintf("RBcast %s BQueued", ms)
+		case w.cur.inHand == nil: // handler idle: it takes the message and blocks in Flush
+			w.cur.inHand = w.cur.take()
+			if w.cur.inHand != nil {
+				res = fmt.Sprintf("RBcast %s BQueued", ms)
+			} else { // nobody took it: the stream is not (or no longer) registered
+				res = fmt.Sprintf("RBcast %s BDropped", ms)
+			}
 		default:
 			_, _, _, l1, _ := w.active.VerifQueues()
-			if l1 == l0+1 {
-				w.chanCount++
+			if l1-dz == l0+1 {
+				w.cur.chanCount++
 				res = fmt.Sprintf("RBcast %s BQueued", ms)
 			} else {
 				res = fmt.Sprintf("RBcast %s BDropped", ms)
@@ -425,9 +504,7 @@ func (w *world) apply(o Op) (op string, res string) {
 		res = "RSync " + vh.Bool(err == nil)
 	case "restart":
 		op = "Restart"
-		if w.link == "streaming" {
-			w.disconnect()
-		}
+		w.close()
 		w.active.Stop()
 		w.newActive()
 		seqCount[w] = 0
@@ -438,26 +515,26 @@ func (w *world) apply(o Op) (op string, res string) {
 			return op, "RSkip"
 		}
 		ctx, cancel := context.WithCancel(context.Background())
-		w.w = &sseWriter{hdr: http.Header{}, pending: make(chan []byte), release: make(chan struct{}), ctx: ctx}
-		w.cancel, w.done = cancel, make(chan struct{})
+		c := &conn{w: &sseWriter{hdr: http.Header{}, pending: make(chan []byte), release: make(chan struct{}), ctx: ctx},
+			cancel: cancel, done: make(chan struct{})}
 		req := httptest.NewRequest("GET", "/ha/sessions/stream", nil).WithContext(ctx)
-		req.RemoteAddr = "127.0.0.1:40000"
-		go func(sw *sseWriter, done chan struct{}) {
-			w.active.VerifHandleSessionStream(sw, req)
-			close(done)
-		}(w.w, w.done)
-		hb := <-w.w.pending // the initial heartbeat
-		for _, d := range dataLines(hb) {
-			w.stand.VerifHandleSSEData(d)
-		}
-		w.w.release <- struct{}{}
+		w.nconn++
+		req.RemoteAddr = fmt.Sprintf("127.0.0.1:%d", 40000+w.nconn) // same host, a new source port per connection
+		go func(a *ha.HASyncer) {
+			a.VerifHandleSessionStream(c.w, req)
+			close(c.done)
+		}(w.active)
+		// the standby sees the stream connected at the handler's first flush (the initial heartbeat);
+		// the handler stays blocked in that flush until the heartbeat is delivered
+		c.inHand = c.take()
+		w.cur = c
 		w.link = "streaming"
 	case "deliver":
 		op = "Deliver"
-		if w.link != "streaming" || w.inHand == nil {
+		if w.link != "streaming" || w.cur.inHand == nil {
 			return op, "RSkip"
 		}
-		ls := dataLines(w.inHand)
+		ls := dataLines(w.cur.inHand)
 		var m ha.SyncMessage
 		if len(ls) != 1 || json.Unmarshal(ls[0], &m) != nil {
 			res = "RDeliver (MPut 666666 false [] 0)"
@@ -467,11 +544,11 @@ func (w *world) apply(o Op) (op string, res string) {
 		for _, d := range ls {
 			w.stand.VerifHandleSSEData(d)
 		}
-		w.inHand = nil
-		w.w.release <- struct{}{}
-		if w.chanCount > 0 { // the handler takes the next queued message and blocks in Flush again
-			w.inHand = <-w.w.pending
-			w.chanCount--
+		w.cur.inHand = nil
+		w.cur.letGo()
+		if w.cur.chanCount > 0 { // the handler takes the next queued message and blocks in Flush again
+			w.cur.inHand = w.cur.take()
+			w.cur.chanCount--
 		}
 	case "disc":
 		op = "Disconnect"
@@ -482,6 +559,21 @@ func (w *world) apply(o Op) (op string, res string) {
 			w.disconnect()
 		}
 		w.link = "down"
+	case "drop":
+		op = "Drop"
+		if w.link != "streaming" {
+			return op, "RSkip"
+		}
+		w.zombies = append(w.zombies, w.cur) // the handler stays attached, blocked or idle, nobody reads
+		w.cur = nil
+		w.link = "down"
+	case "reap":
+		op = "Reap"
+		if len(w.zombies) == 0 {
+			return op, "RSkip"
+		}
+		w.zombies[0].end() // the handler notices at last and exits: its deferred unregistration runs
+		w.zombies = w.zombies[1:]
 	default:
 		panic("bad op " + o.K)
 	}
@@ -497,19 +589,27 @@ func (w *world) seq() uint64 {
 
 var seqCount = map[*world]uint64{}
 
-func (w *world) observe(res string) string {
-	pl, _, _, cl, _ := w.active.VerifQueues()
-	q := cl
-	if w.inHand != nil {
-		q++
+func (w *world) inHands() (n int) {
+	if w.cur != nil && w.cur.inHand != nil {
+		n++
 	}
+	for _, z := range w.zombies {
+		if z.inHand != nil {
+			n++
+		}
+	}
+	return
+}
+
+func (w *world) observe(res string) string {
+	pl, _, ncl, cl, _ := w.active.VerifQueues()
 	lk := map[string]string{"down": "LDown", "synced": "LSynced", "streaming": "LStreaming"}[w.link]
-	return fmt.Sprintf("mkOut %s %s %s %d %d %s (%s)", table(w.aStore), table(w.sStore), recvTable(w.stand), pl, q, lk, res)
+	return fmt.Sprintf("mkOut %s %s %s %d %d %s (%s) %d", table(w.aStore), table(w.sStore), recvTable(w.stand), pl, cl+w.inHands(), lk, res, ncl)
 }
 
 func (w *world) fingerprint() string {
-	pl, _, _, cl, _ := w.active.VerifQueues()
-	return fmt.Sprintf("%s|%s|%s|%d|%d|%v|%s", table(w.aStore), table(w.sStore), recvTable(w.stand), pl, cl, w.inHand != nil, w.link)
+	pl, _, ncl, cl, _ := w.active.VerifQueues()
+	return fmt.Sprintf("%s|%s|%s|%d|%d|%d|%d|%d|%s", table(w.aStore), table(w.sStore), recvTable(w.stand), pl, cl, ncl, w.inHands(), len(w.zombies), w.link)
 }
 
 func caps() (int, int) {
@@ -542,6 +642,8 @@ func expand(ops []Op) []Op {
 }
 
 func run(c Case, extraTags ...string) (vh.Case, string) {
+	sizeClass = c.Size
+	defer func() { sizeClass = 0 }()
 	w := newWorld()
 	defer delete(seqCount, w)
 	var tr []string
@@ -583,7 +685,7 @@ func alphabet(ids, vals int) []Op {
 		}
 		a = append(a, Op{K: "del", ID: id})
 	}
-	for _, k := range []string{"bcast", "hb", "sync", "syncfail", "attach", "deliver", "disc", "restart"} {
+	for _, k := range []string{"bcast", "hb", "sync", "syncfail", "attach", "deliver", "disc", "drop", "reap", "restart"} {
 		a = append(a, Op{K: k, F: 1}) // syncfail in the exhaustive stream: the body cut half way
 	}
 	return a
@@ -687,7 +789,12 @@ func genRandom(r *vh.Rng, maxLen int, guarded bool) Case {
 	link := "down"
 	last := map[int]int64{}
 	for len(ops) < n {
-		switch x := r.Intn(26); {
+		switch x := r.Intn(30); {
+		case x >= 28:
+			ops = append(ops, Op{K: "reap"})
+		case x >= 26:
+			ops = append(ops, Op{K: "drop"})
+			link = "down"
 		case x == 24:
 			ops = append(ops, Op{K: "syncfail", F: r.Intn(3)})
 			if link != "streaming" {
@@ -738,12 +845,19 @@ func genRandom(r *vh.Rng, maxLen int, guarded bool) Case {
 		if link == "synced" {
 			ops = append(ops, Op{K: "attach"})
 		}
+		if r.Chance(1, 3) { // a zombie's late exit must not take the live stream with it
+			ops = append(ops, Op{K: "reap"}, Op{K: "reap"})
+		}
 		for i := 0; i < n+2; i++ {
 			ops = append(ops, Op{K: "bcast"}, Op{K: "deliver"})
 		}
 		ops = append(ops, Op{K: "deliver"}, Op{K: "deliver"})
 	}
-	return Case{Ops: ops}
+	c := Case{Ops: ops}
+	if r.Chance(1, 4) {
+		c.Size = 1 + r.Intn(2)
+	}
+	return c
 }
 
 // ---------------------------------------------------------------- end-to-end stream
@@ -763,6 +877,86 @@ type e2eWorld struct {
 	faultsServed   int
 	link           string
 	hb             bool
+	streams        []*held       // every stream handler started on the active, oldest first
+	gateNext       chan struct{} // non-nil: the next stream handler is held after its first flush until this closes
+}
+
+// held: one real handleSessionStream invocation behind the loopback server, under the driver's control:
+// it can be turned into a zombie (the standby's connection is gone, the handler does not notice:
+// its request context is not the connection's, its writes are swallowed as a half-open TCP
+// connection's kernel buffer would) and it can be held right after its first flush.
+type held struct {
+	ctx          context.Context
+	cancel       context.CancelFunc
+	zombie       atomic.Bool
+	firstFlushed chan struct{}
+	gate         chan struct{}
+	exited       chan struct{}
+}
+type heldWriter struct {
+	http.ResponseWriter
+	h *held
+	n int
+}
+
+func (hw *heldWriter) Write(b []byte) (int, error) {
+	if hw.h.zombie.Load() {
+		return len(b), nil
+	}
+	return hw.ResponseWriter.Write(b)
+}
+func (hw *heldWriter) Flush() {
+	if hw.h.zombie.Load() {
+		return
+	}
+	hw.ResponseWriter.(http.Flusher).Flush()
+	hw.n++
+	if hw.n == 1 {
+		close(hw.h.firstFlushed)
+		if hw.h.gate != nil {
+			select {
+			case <-hw.h.gate:
+			case <-hw.h.ctx.Done():
+			case <-time.After(10 * time.Second):
+			}
+		}
+	}
+}
+
+func (w *e2eWorld) serveStream(a *ha.HASyncer, rw http.ResponseWriter, r *http.Request) {
+	ctx, cancel := context.WithCancel(context.Background())
+	h := &held{ctx: ctx, cancel: cancel, firstFlushed: make(chan struct{}), exited: make(chan struct{})}
+	w.gateMu.Lock()
+	h.gate, w.gateNext = w.gateNext, nil
+	w.streams = append(w.streams, h)
+	w.gateMu.Unlock()
+	go func() { // the connection's end ends the handler, as net/http does — unless it is a zombie
+		select {
+		case <-r.Context().Done():
+			if !h.zombie.Load() {
+				cancel()
+			}
+		case <-ctx.Done():
+		}
+	}()
+	a.VerifHandleSessionStream(&heldWriter{ResponseWriter: rw, h: h}, r.WithContext(ctx))
+	cancel()
+	close(h.exited)
+}
+
+func (w *e2eWorld) liveStream() *held {
+	w.gateMu.Lock()
+	defer w.gateMu.Unlock()
+	for i := len(w.streams) - 1; i >= 0; i-- {
+		select {
+		case <-w.streams[i].exited:
+		default:
+			if !w.streams[i].zombie.Load() {
+				return w.streams[i]
+			}
+		}
+	}
+	return nil
 }
 
 func (w *e2eWorld) newActive() {
@@ -795,7 +989,7 @@ func newE2E(hb bool) *e2eWorld {
 			case d:
 				http.Error(rw, "link down", http.StatusServiceUnavailable)
 			case stream:
-				a.VerifHandleSessionStream(rw, r)
+				w.serveStream(a, rw, r)
 			default:
 				faulty(a.VerifHandleGetSessions, f)(rw, r)
 			}
@@ -820,6 +1014,9 @@ func newE2E(hb bool) *e2eWorld {
 func (w *e2eWorld) close() {
 	w.gateMu.Lock()
 	w.down = true
+	for _, h := range w.streams {
+		h.cancel()
+	}
 	w.gateMu.Unlock()
 	done := make(chan struct{})
 	go func() { w.stand.Stop(); close(done) }()
@@ -888,10 +1085,7 @@ func (w *e2eWorld) apply(o Op) []string {
 		w.down = true
 		w.gateMu.Unlock()
 		w.srv.CloseClientConnections()
-		poll(3*time.Second, func() bool {
-			_, _, n, _, _ := w.active.VerifQueues()
-			return !w.stand.IsConnected() && n == 0
-		})
+		poll(3*time.Second, func() bool { return !w.stand.IsConnected() && w.liveStream() == nil })
 		w.link = "down"
 		return []string{"Disconnect"}
 	case "restart":
@@ -903,10 +1097,54 @@ func (w *e2eWorld) apply(o Op) []string {
 		w.gateMu.Unlock()
 		w.srv.CloseClientConnections()
 		old.Stop()
+		w.gateMu.Lock()
+		for _, h := range w.streams { // zombies of the old process die with it
+			h.cancel()
+		}
+		w.streams = nil
+		w.gateMu.Unlock()
 		w.newActive()
 		poll(3*time.Second, func() bool { return !w.stand.IsConnected() })
 		w.link = "down"
 		return []string{"Restart"}
+	case "drop":
+		// the standby loses the stream; the active's handler does not notice (half-open connection)
+		if w.link != "streaming" {
+			return nil
+		}
+		if h := w.liveStream(); h != nil {
+			h.zombie.Store(true)
+		}
+		w.gateMu.Lock()
+		w.down = true
+		w.gateMu.Unlock()
+		w.srv.CloseClientConnections()
+		poll(3*time.Second, func() bool { return !w.stand.IsConnected() })
+		w.link = "down"
+		return []string{"Drop"}
+	case "reap":
+		// the oldest zombie handler notices at last and exits (its deferred unregistration runs)
+		w.gateMu.Lock()
+		var z *held
+		for _, h := range w.streams {
+			select {
+			case <-h.exited:
+			default:
+				if h.zombie.Load() && z == nil {
+					z = h
+				}
+			}
+		}
+		w.gateMu.Unlock()
+		if z == nil {
+			return nil
+		}
+		z.cancel()
+		select {
+		case <-z.exited:
+		case <-time.After(3 * time.Second):
+		}
+		return []string{"Reap"}
 	case "reconnect", "cutsync":
 		if w.link != "down" {
 			return nil
@@ -929,22 +1167,55 @@ func (w *e2eWorld) apply(o Op) []string {
 			w.gateMu.Unlock()
 			pre = []string{"SyncFail"}
 		}
+		var gate chan struct{}
 		w.gateMu.Lock()
+		if o.G {
+			gate = make(chan struct{})
+			w.gateNext = gate
+		}
 		w.down = false
 		w.gateMu.Unlock()
 		// the standby's own loop notices: what it does on (re)connect is the code under test
+		if !o.G {
+			if poll(5*time.Second, func() bool { return w.stand.IsConnected() && w.liveStream() != nil }) {
+				w.link = "streaming"
+			}
+			return append(pre, "FullSync", "Attach", "Deliver") // as standbyLoop does; Deliver: the initial heartbeat
+		}
+		// gated: the handler is held right after its first flush — the instant the standby sees the
+		// stream connected; a change pushed and broadcast NOW must reach it
 		if poll(5*time.Second, func() bool {
-			_, _, n, _, _ := w.active.VerifQueues()
-			return w.stand.IsConnected() && n == 1
+			h := w.liveStream()
+			if h == nil || !w.stand.IsConnected() {
+				return false
+			}
+			select {
+			case <-h.firstFlushed:
+				return true
+			default:
+				return false
+			}
 		}) {
 			w.link = "streaming"
 		}
-		return append(pre, "FullSync", "Attach") // as standbyLoop does
+		v := canon(o.V)
+		sess := session(o.ID, v)
+		typ := ha.SyncTypeAdd
+		if _, ok := w.aStore.GetSession(sess.SessionID); ok {
+			typ = ha.SyncTypeUpdate
+		}
+		w.aStore.PutSession(sess)
+		w.active.PushChange(typ, sess)
+		poll(1500*time.Millisecond, func() bool { pl, _, _, _, _ := w.active.VerifQueues(); return pl == 0 })
+		close(gate)
+		return append(pre, "FullSync", "Attach", fmt.Sprintf("Put %d %s", o.ID, rec(v)), "Broadcast", "Deliver", "Deliver")
 	}
 	panic("bad e2e op " + o.K)
 }
 
 func runE2E(c Case, extraTags ...string) vh.Case {
+	sizeClass = c.Size
+	defer func() { sizeClass = 0 }()
 	w := newE2E(c.HB)
 	var gs []string
 	tags := map[string]bool{}
@@ -985,6 +1256,9 @@ func runE2E(c Case, extraTags ...string) vh.Case {
 
 func genE2E(r *vh.Rng) Case {
 	c := Case{E2E: true, HB: r.Bool()}
+	if r.Chance(1, 2) {
+		c.Size = 1 + r.Intn(2)
+	}
 	last := map[int]int64{}
 	chg := func() {
 		if r.Chance(1, 3) {
@@ -995,11 +1269,21 @@ func genE2E(r *vh.Rng) Case {
 			c.Ops = append(c.Ops, Op{K: "put", ID: id, V: last[id]})
 		}
 	}
+	zombies := 0
 	up := func() { // the link comes back: one time in three the first full syncs are cut in flight
-		if r.Chance(1, 3) {
+		switch x := r.Intn(6); {
+		case x < 2:
 			c.Ops = append(c.Ops, Op{K: "cutsync", F: r.Intn(3)})
-		} else {
+		case x < 4: // a change lands in the window between the stream's first flush and the handler's next step
+			id := r.Intn(nIDs)
+			last[id] = genVal(r, last[id])
+			c.Ops = append(c.Ops, Op{K: "reconnect", G: true, ID: id, V: last[id]})
+		default:
 			c.Ops = append(c.Ops, Op{K: "reconnect"})
+		}
+		for ; zombies > 0 && r.Chance(2, 3); zombies-- { // the old handler exits AFTER the new stream attached
+			c.Ops = append(c.Ops, Op{K: "reap"})
+			chg()
 		}
 	}
 	for k := r.Intn(3); k > 0; k-- {
@@ -1016,8 +1300,14 @@ func genE2E(r *vh.Rng) Case {
 			for k := r.Intn(3); k > 0; k-- { // 0: the standby meets an EMPTY snapshot
 				chg()
 			}
+			zombies = 0
 		} else {
-			c.Ops = append(c.Ops, Op{K: "disc"})
+			if r.Bool() {
+				c.Ops = append(c.Ops, Op{K: "drop"})
+				zombies++
+			} else {
+				c.Ops = append(c.Ops, Op{K: "disc"})
+			}
 			for k := 1 + r.Intn(3); k > 0; k-- { // changes during the outage (deletes matter most)
 				chg()
 			}
@@ -1043,17 +1333,17 @@ func genFields() []Case {
 			other := canon(setDigit(base, k, int64(3-d)))
 			only := canon(setDigit(0, k, int64(d)))
 			put := func(v int64) []Op { return []Op{{K: "put", ID: 0, V: v}, {K: "bcast"}, {K: "deliver"}} }
-			ops := []Op{{K: "put", ID: 0, V: base}, {K: "bcast"}, {K: "sync"}, {K: "attach"}}
+			ops := []Op{{K: "put", ID: 0, V: base}, {K: "bcast"}, {K: "sync"}, {K: "attach"}, {K: "deliver"}}
 			ops = append(ops, put(zeroed)...)
 			ops = append(ops, put(other)...)
 			ops = append(ops, put(zeroed)...)
 			ops = append(ops, put(base)...)
-			ops = append(ops, Op{K: "disc"}, Op{K: "put", ID: 0, V: zeroed}, Op{K: "bcast"}, Op{K: "sync"}, Op{K: "attach"})
+			ops = append(ops, Op{K: "disc"}, Op{K: "put", ID: 0, V: zeroed}, Op{K: "bcast"}, Op{K: "sync"}, Op{K: "attach"}, Op{K: "deliver"})
 			ops = append(ops, Op{K: "del", ID: 0}, Op{K: "bcast"}, Op{K: "deliver"})
 			ops = append(ops, put(only)...)
 			ops = append(ops, put(base)...)
 			ops = append(ops, put(0)...)
-			cs = append(cs, Case{Ops: ops})
+			cs = append(cs, Case{Ops: ops, Size: (k + d) % 3})
 		}
 	}
 	return cs
@@ -1190,7 +1480,7 @@ func main() {
 	}
 	ex := explore(depth, alphabet(2, 2), seedPrefixes)
 	vh.Emit(cfg, "exhaustive", header, footer, ex, map[string]interface{}{"exhaustive": true,
-		"exhaustive_note": fmt.Sprintf("breadth-first over the 14-operation alphabet (2 ids x 2 full-record values: all fields non-zero; every other field reset to zero) to depth %d from the initial state and %d seeded states; a sequence is extended only when it reaches a new implementation-state fingerprint (both stores, received map, queue lengths, link)", depth, len(seedPrefixes)),
+		"exhaustive_note": fmt.Sprintf("breadth-first over the 16-operation alphabet (2 ids x 2 full-record values: all fields non-zero; every other field reset to zero) to depth %d from the initial state and %d seeded states; a sequence is extended only when it reaches a new implementation-state fingerprint (both stores, received map, queue lengths, link)", depth, len(seedPrefixes)),
 		"pending_cap":     pcap, "client_cap_plus_in_hand": ccap})
 	r := vh.NewRng(cfg.Seed)
 	var cases, guarded []vh.Case
